@@ -1172,23 +1172,28 @@ func init() {
 			r.Analysed = len(fns)
 			// constructors: functions of the package that return a *Block they allocate
 			ctors := map[*ssa.Function]bool{}
+			// (whatever they return: a helper that builds the block and sends it is one too);
+			// a function whose Block literal sits inside a loop of its own is a producer, not a constructor
 			for _, fn := range fns {
-				res := fn.Signature.Results()
-				if res.Len() != 1 {
+				if fn.Parent() != nil {
 					continue
 				}
-				pt, ok := res.At(0).Type().(*types.Pointer)
-				if !ok || !types.Identical(pt.Elem(), blockT) {
-					continue
-				}
+				inLoop, outside := false, false
 				for _, b := range fn.Blocks {
 					for _, in := range b.Instrs {
 						if a, ok := in.(*ssa.Alloc); ok {
 							if apt, ok := a.Type().(*types.Pointer); ok && types.Identical(apt.Elem(), blockT) {
-								ctors[fn] = true
+								if enclosingLoop(b) != nil {
+									inLoop = true
+								} else {
+									outside = true
+								}
 							}
 						}
 					}
+				}
+				if outside && !inLoop && staticCallSites(p, fn) > 0 {
+					ctors[fn] = true
 				}
 			}
 			for _, fn := range fns {
